@@ -1528,6 +1528,90 @@ const SPECS: &[Spec] = &[
         tail: None,
         note: "`Queue::reschedule_running_task` is the parameter; tied: the task keeps its own key and gets the time of the priority.",
     },
+    Spec {
+        id: "C10",
+        file: "src/server/pubd/rrdp.rs",
+        ty: "CurrentObjects",
+        method: "apply_delta",
+        lean: "CurrentObjects.apply_delta",
+        sig: "&mutself,delta:DeltaElements->()",
+        binders: "{E O : Type} (insert remove : O → E → O) (self_0 : O) (publishes updates withdraws : List E)",
+        args: "insert remove self_0 publishes updates withdraws",
+        ret: "O",
+        num: Num::Nat,
+        names: &[("publishes", "publishes"), ("updates", "updates"), ("withdraws", "withdraws")],
+        methods: &[],
+        state_ty: &[("self_0", "O")],
+        elem_ty: "E",
+        enums: &[],
+        structs: &[],
+        types: &[],
+        opaque_lets: &[("(publishes,updates,withdraws)", "delta.unpack()")],
+        effects: &[("self.0.insert(CurrentObjectUri::from(p.uri),p.base64)", "self_0", "insert self_0 p"), ("self.0.insert(CurrentObjectUri::from(u.uri),u.base64)", "self_0", "insert self_0 u"), ("self.0.remove(&CurrentObjectUri::from(w.uri))", "self_0", "remove self_0 w")],
+        wrapper: None,
+        cond_effects: &[],
+        self_fields: &["0"],
+        mut_params: &[],
+        extern_enums: &[],
+        tail: None,
+        note: "the object map `O` and delta elements `E` are abstract: `self.0.insert(CurrentObjectUri::from(x.uri), x.base64)` is `insert objs x` (the content of the element under the canonical key of its URI), `self.0.remove(&CurrentObjectUri::from(w.uri))` is `remove objs w`; the three lists are `DeltaElements::unpack()` in protocol order; the result is the map after the call.",
+    },
+    Spec {
+        id: "C11",
+        file: "src/server/pubd/rrdp.rs",
+        ty: "RrdpServer",
+        method: "deltas_truncate_size",
+        lean: "RrdpServer.deltas_truncate_size",
+        sig: "&mutself->()",
+        binders: "{Δ : Type} (size_of : Δ → Nat) (snap_size : Nat) (self_deltas : List Δ)",
+        args: "size_of snap_size self_deltas",
+        ret: "List Δ",
+        num: Num::Nat,
+        names: &[("self.snapshot().size_approx()", "snap_size"), ("&self.deltas", "self_deltas")],
+        methods: &[(("delta.elements()", "size_approx"), "size_of delta")],
+        state_ty: &[("self_deltas", "List Δ"), ("total_deltas_size", "Nat"), ("keep", "Nat")],
+        elem_ty: "Δ",
+        enums: &[],
+        structs: &[],
+        types: &[],
+        opaque_lets: &[],
+        effects: &[("self.deltas.truncate(keep)", "self_deltas", "self_deltas.take keep")],
+        wrapper: None,
+        cond_effects: &[],
+        self_fields: &["deltas"],
+        mut_params: &[],
+        extern_enums: &[],
+        tail: None,
+        note: "deltas `Δ` are abstract (newest first); `delta.elements().size_approx()` is `size_of delta`, `self.snapshot().size_approx()` the parameter `snap_size`; `VecDeque::truncate(keep)` is `List.take keep`; the result is the delta list after the call.",
+    },
+    Spec {
+        id: "C11",
+        file: "src/server/pubd/rrdp.rs",
+        ty: "RrdpServer",
+        method: "update_rrdp_needed",
+        lean: "RrdpServer.update_rrdp_needed",
+        sig: "&self,rrdp_updates_config:RrdpUpdatesConfig->RrdpUpdateNeeded",
+        binders: "(has_staged : Bool) (last_update interval now : Int)",
+        args: "has_staged last_update interval now",
+        ret: "RrdpUpdateNeeded",
+        num: Num::Int,
+        names: &[("self.staged_elements.values().any(|el|!el.0.is_empty())", "has_staged"), ("Duration::seconds(rrdp_updates_config.rrdp_delta_interval_min_seconds.into(),)", "interval"), ("self.last_update", "last_update"), ("Time::now()", "now")],
+        methods: &[],
+        state_ty: &[],
+        elem_ty: "",
+        enums: &[("RrdpUpdateNeeded", "src/server/pubd/rrdp.rs", " ")],
+        structs: &[],
+        types: &[("Time", "Int")],
+        opaque_lets: &[],
+        effects: &[],
+        wrapper: None,
+        cond_effects: &[],
+        self_fields: &[],
+        mut_params: &[],
+        extern_enums: &[],
+        tail: None,
+        note: "`Time` and `Duration` are whole seconds (`Int`); `has_staged` = some publisher has a non-empty set of staged elements; the configured minimal interval is the parameter `interval`, the clock the parameter `now`.",
+    },
 ];
 
 type R = Result<String, String>;
